@@ -23,7 +23,7 @@ fn rle_modes(ll: u32, ofv: u32, ml: u32) -> (SeqMode, SeqMode, SeqMode) {
 }
 
 fn plain(name: &str, win_desc: u8, cks: bool, blocks: Vec<Blk>) -> FrameSpec {
-    FrameSpec { name: name.into(), win_desc: Some(win_desc), cks, dict_id: None, fcs: None, blocks, dict: vec![], rep: [1, 4, 8] }
+    FrameSpec { name: name.into(), win_desc: Some(win_desc), cks, dict_id: None, fcs: None, blocks, dict: vec![], rep: [1, 4, 8], dict_tables: None }
 }
 
 /// treeless literals (type 3) in the first compressed block: must fail on a decoder without a Huffman table
@@ -41,6 +41,29 @@ fn probe_repeat(mode_byte: u8) -> Blk {
     body.push(mode_byte);
     body.extend_from_slice(&[0xFF, 0xFF, 0xFF, 0x01]);
     Blk::Verbatim { ty: 2, size_field: body.len() as u32, body, regen: None }
+}
+
+pub struct DictSpec {
+    pub id: u32,
+    pub content: Vec<u8>,
+    pub rep: [u32; 3],
+    pub tables: DictTables,
+}
+
+/// Two synthetic dictionaries with entropy tables that differ from the predefined ones.
+pub fn dict_specs() -> (DictSpec, DictSpec) {
+    let mut huf = vec![0u8; 97];
+    huf.extend_from_slice(&[3, 3, 2, 2, 1, 1, 1]); // 'a'..'g', implied weight 1 for 'h'
+    let mut of = crate::fsecodec::OF_DEF.to_vec();
+    of.swap(0, 6);
+    let mut ml = crate::fsecodec::ML_DEF.to_vec();
+    ml.swap(0, 1);
+    let mut ll = crate::fsecodec::LL_DEF.to_vec();
+    ll.swap(0, 13);
+    let tables = DictTables { huf, of: (5, of), ml: (6, ml), ll: (6, ll) };
+    let a = DictSpec { id: 0x11, content: fresh(64, 30), rep: [3, 10, 20], tables: tables.clone() };
+    let b = DictSpec { id: 0x2233, content: fresh(40, 31), rep: [1, 4, 8], tables };
+    (a, b)
 }
 
 pub fn frame_set(name: &str) -> Vec<FrameSpec> {
@@ -65,7 +88,7 @@ pub fn frame_set(name: &str) -> Vec<FrameSpec> {
         ));
     };
     let small = |v: &mut Vec<FrameSpec>| {
-        v.push(FrameSpec { name: "single5".into(), win_desc: None, cks: false, dict_id: None, fcs: Some(5), blocks: vec![Blk::Raw(fresh(5, 7))], dict: vec![], rep: [1, 4, 8] });
+        v.push(FrameSpec { name: "single5".into(), win_desc: None, cks: false, dict_id: None, fcs: Some(5), blocks: vec![Blk::Raw(fresh(5, 7))], dict: vec![], rep: [1, 4, 8], dict_tables: None });
         v.push(FrameSpec {
             name: "single40".into(),
             win_desc: None,
@@ -78,6 +101,7 @@ pub fn frame_set(name: &str) -> Vec<FrameSpec> {
             ],
             dict: vec![],
             rep: [1, 4, 8],
+            dict_tables: None,
         });
         // repeat offsets right at the start of a frame: content depends on the initial history (1, 4, 8)
         v.push(plain(
@@ -133,6 +157,31 @@ pub fn frame_set(name: &str) -> Vec<FrameSpec> {
         v.push(plain("rle_block_max", 0x38, true, vec![Blk::Rle(9, 131072), Blk::Rle(10, 131072), Blk::Raw(fresh(5, 23))]));
     };
     match name {
+        "dict" => {
+            let (da, db) = dict_specs();
+            let with = |name: &str, d: &DictSpec, cks: bool, blocks: Vec<Blk>| FrameSpec {
+                name: name.into(), win_desc: Some(0), cks, dict_id: Some(d.id), fcs: None, blocks, dict: d.content.clone(), rep: d.rep, dict_tables: Some(d.tables.clone()),
+            };
+            let pre = (SeqMode::Predef, SeqMode::Predef, SeqMode::Predef);
+            let rep3 = (SeqMode::Repeat, SeqMode::Repeat, SeqMode::Repeat);
+            // matches into the dictionary content: inside, the whole dictionary, straddling into the output with overlap
+            v.push(with("dA_match", &da, true, vec![Blk::Comp { lits: Lits::Raw(fresh(6, 40)), seqs: vec![(2, 2 + 10 + 3, 8), (2, 4 + 8 + 64 + 3, 90), (1, 1, 4)], modes: pre.clone() }]));
+            // the dictionary's entropy tables and repeat offsets are the starting state
+            v.push(with("dA_tables", &da, false, vec![
+                Blk::Raw(fresh(30, 41)),
+                Blk::Comp { lits: Lits::Huf(b"abcdefghabcaab".to_vec(), false, None, None), seqs: vec![(3, 1, 5), (4, 2, 4), (0, 3, 6), (5, 20 + 3, 3)], modes: rep3.clone() },
+            ]));
+            v.push(with("dB_plain", &db, true, vec![Blk::Comp { lits: Lits::Raw(fresh(5, 42)), seqs: vec![(5, 5 + 40 + 3, 12)], modes: pre.clone() }, Blk::Rle(7, 100)]));
+            // names a dictionary nobody registered
+            let mut missing = with("d_missing", &da, false, vec![Blk::Raw(fresh(4, 43))]);
+            missing.dict_id = Some(0x77);
+            v.push(missing);
+            // a match reaching before the start of a dictionary-less frame: invalid on every decoder
+            v.push(plain("probe_reach", 0x00, false, vec![Blk::Raw(fresh(10, 44)), Blk::Comp { lits: Lits::Raw(vec![]), seqs: vec![(0, 30 + 3, 5)], modes: pre.clone() }, Blk::Raw(vec![])]));
+            small(&mut v);
+            probes(&mut v);
+            dirty(&mut v);
+        }
         "hostile" => {
             hostile(&mut v);
             // a thousand maximum-length matches in one block (finding F1)
@@ -150,6 +199,21 @@ pub fn frame_set(name: &str) -> Vec<FrameSpec> {
                 vec![Blk::Raw(fresh(1, 25)), Blk::Comp { lits: Lits::Raw(vec![]), seqs: vec![(0, 4, ml); 32800], modes: rle_modes(0, 4, ml) }],
             ));
             v.push(plain("rle3_cks", 0x00, true, vec![Blk::Rle(17, 1023), Blk::Raw(fresh(2, 1)), Blk::Rle(34, 1024)]));
+            // a block as large as the (256 KiB) window, after the window has been filled: more than 128 KiB, so it must be refused
+            let ml2 = 131072u32;
+            v.push(plain(
+                "bomb_window_256k",
+                0x40,
+                false,
+                vec![Blk::Rle(1, 131072), Blk::Rle(2, 131072), Blk::Comp { lits: Lits::Raw(vec![]), seqs: vec![(0, 4, ml2); 2], modes: rle_modes(0, 4, ml2) }, Blk::Raw(vec![])],
+            ));
+            // 8 MiB window filled, then one block of 8 MiB
+            v.push(plain(
+                "bomb_window_8m",
+                0x68,
+                false,
+                std::iter::repeat(Blk::Rle(3, 131072)).take(64).chain(std::iter::once(Blk::Comp { lits: Lits::Raw(vec![]), seqs: vec![(0, 4, ml2); 64], modes: rle_modes(0, 4, ml2) })).chain(std::iter::once(Blk::Raw(vec![]))).collect(),
+            ));
         }
         "core" => {
             core(&mut v);
@@ -175,9 +239,23 @@ pub fn fdframes(args: &[String]) {
     let set = frame_set(&args[0]);
     let mut out = vec![];
     let mut tool_errors = vec![];
+    let (da, db) = dict_specs();
+    let dicts: Vec<(u32, Vec<u8>)> = [&da, &db].iter().map(|d| (d.id, build_dictionary(d.id, &d.tables, d.rep, &d.content))).collect();
     for s in &set {
-        let b = build(s);
-        let r = zstd::decode_all(&b.bytes[..]);
+        let mut b = build(s);
+        if let Some(id) = s.dict_id {
+            if !dicts.iter().any(|d| d.0 == id) {
+                b.rerr = "dict".into();
+                b.valid = false;
+            }
+        }
+        let r = match s.dict_id.and_then(|id| dicts.iter().find(|d| d.0 == id)) {
+            Some((_, raw)) => {
+                let mut o = Vec::new();
+                zstd::stream::read::Decoder::with_dictionary(&b.bytes[..], raw).and_then(|mut d| std::io::Read::read_to_end(&mut d, &mut o)).map(|_| o)
+            }
+            None => zstd::decode_all(&b.bytes[..]),
+        };
         match (&r, b.valid) {
             (Ok(v), true) if *v == b.content => {}
             (Err(_), false) => {}
@@ -185,7 +263,7 @@ pub fn fdframes(args: &[String]) {
         }
         out.push(b.to_json());
     }
-    write_json(&args[1], &json!({"frames": out, "tool_errors": tool_errors}));
+    write_json(&args[1], &json!({"frames": out, "tool_errors": tool_errors, "dicts": dicts.iter().map(|d| hex(&d.1)).collect::<Vec<_>>()}));
 }
 
 pub fn err_class(e: &FrameDecoderError) -> String {
@@ -221,6 +299,11 @@ impl Read for Src {
     }
 }
 
+thread_local! {
+    /// dictionaries registered with every decoder the executor creates
+    pub static DICTS: std::cell::RefCell<Vec<Vec<u8>>> = const { std::cell::RefCell::new(Vec::new()) };
+}
+
 pub struct FrameInfo {
     pub bytes: Vec<u8>,
     pub content: Vec<u8>,
@@ -232,6 +315,9 @@ pub struct FrameInfo {
 
 pub fn load_frames(path: &str) -> Vec<FrameInfo> {
     let v: Value = serde_json::from_str(&std::fs::read_to_string(path).unwrap()).unwrap();
+    if let Some(ds) = v["dicts"].as_array() {
+        DICTS.with(|d| *d.borrow_mut() = ds.iter().map(|x| unhex(x.as_str().unwrap())).collect());
+    }
     v["frames"]
         .as_array()
         .unwrap()
@@ -336,6 +422,17 @@ impl<'f> Exec<'f> {
             Err(e) => {
                 if self.started {
                     self.failed = true;
+                }
+                if let FrameDecoderError::DictNotProvided { .. } = e {
+                    // the decoder has switched to the new frame before it noticed the missing dictionary
+                    self.fi = i;
+                    self.cutv = cutv;
+                    self.delivered.clear();
+                    self.started = true;
+                    self.failed = true;
+                    self.saw_last = false;
+                    self.used_slice = false;
+                    self.frame_error = None;
                 }
                 vec![json!("err"), json!(err_class(&e))]
             }
@@ -529,6 +626,13 @@ impl<'f> Exec<'f> {
 /// Run one program. mode: 0 = plain FrameDecoder, 1 = decoder owned by a StreamingDecoder; chunk = source fragmentation.
 fn run_program(prog: &[Value], frames: &[FrameInfo], mode: u8, chunk: usize) -> Outcome {
     let decp: *mut FrameDecoder = Box::into_raw(Box::new(FrameDecoder::new()));
+    DICTS.with(|d| {
+        for raw in d.borrow().iter() {
+            if let Ok(dict) = ruzstd::decoding::Dictionary::decode_dict(raw) {
+                unsafe { &mut *decp }.add_dict(dict).unwrap();
+            }
+        }
+    });
     let mut ex = Exec { decp, sd: None, src: Src { data: vec![], pos: 0, chunk }, fi: 0, cutv: 0, frames, delivered: vec![], chunk, mode,
         started: false, failed: false, saw_last: false, used_slice: false, frame_error: None };
     let mut out = Outcome::default();
@@ -1363,4 +1467,218 @@ pub fn realtrunc(args: &[String]) {
         }
     }
     write_json(&args[2], &json!({"frames": nframes, "cases": cases, "mismatches": bad, "first": mism}));
+}
+
+// ---------------------------------------------------------------------------------------------
+// C05: held data and heap peaks under hostile frames
+// ---------------------------------------------------------------------------------------------
+
+/// c05exec <frames.json> <report.json>: every frame through every strategy / front end, each case in a child process
+/// (c05case) with a heap cap and a deadline, so that a decoder that expands a few kilobytes into gigabytes is a recorded
+/// observation and not the end of the run.
+pub fn c05exec(args: &[String]) {
+    let frames = load_frames(&args[0]);
+    const MB: usize = 128 * 1024;
+    let exe = std::env::current_exe().unwrap();
+    let mut rows: Vec<Value> = vec![];
+    let mut bad: Vec<Value> = vec![];
+    let mut n = 0u64;
+    for (fi, fr) in frames.iter().enumerate() {
+        for strat in STRATS {
+            n += 1;
+            let requested: usize = requested_of(strat);
+            let slack = fr.bytes.len() * 2 + fr.content.len().min(1 << 22) + (4 << 20);
+            let allowed_heap = 2 * (fr.win + requested + MB) + slack;
+            let allowed_held = if strat == "all" || strat == "decode_all" || strat == "slice" { usize::MAX } else { requested + MB };
+            let cap = (allowed_heap * 4).max(256 << 20);
+            let mut child = std::process::Command::new(&exe)
+                .args(["c05case", &args[0], &fi.to_string(), strat])
+                .env("VH_HEAP_CAP", cap.to_string())
+                .stdout(std::process::Stdio::piped())
+                .stderr(std::process::Stdio::null())
+                .spawn()
+                .unwrap();
+            let t0 = std::time::Instant::now();
+            let deadline = std::time::Duration::from_secs(60);
+            let status = loop {
+                match child.try_wait().unwrap() {
+                    Some(s) => break Some(s),
+                    None => {
+                        if t0.elapsed() > deadline {
+                            let _ = child.kill();
+                            let _ = child.wait();
+                            break None;
+                        }
+                        std::thread::sleep(std::time::Duration::from_millis(5));
+                    }
+                }
+            };
+            let mut out = String::new();
+            if let Some(mut so) = child.stdout.take() {
+                let _ = so.read_to_string(&mut out);
+            }
+            let mut why = vec![];
+            let row = match (status, serde_json::from_str::<Value>(out.trim())) {
+                (None, _) => {
+                    why.push("no result within 60 s (hang or unbounded expansion)".to_string());
+                    json!({"frame": fi + 1, "strategy": strat, "err": "deadline", "finished": false, "held_beyond_window": 0, "heap_peak": 0, "win": fr.win, "valid": fr.valid})
+                }
+                (Some(st), Ok(mut row)) if st.success() => {
+                    row["allowed_heap"] = json!(allowed_heap);
+                    row
+                }
+                (Some(st), _) => {
+                    why.push(format!("the decoding process died ({st}): heap cap of {cap} bytes exceeded or crash"));
+                    json!({"frame": fi + 1, "strategy": strat, "err": "died", "finished": false, "held_beyond_window": 0, "heap_peak": cap, "win": fr.win, "valid": fr.valid})
+                }
+            };
+            let err = row["err"].as_str().unwrap_or("").to_string();
+            let held = row["held_beyond_window"].as_u64().unwrap_or(0) as usize;
+            let peak = row["heap_peak"].as_u64().unwrap_or(0) as usize;
+            let fin = row["finished"].as_bool().unwrap_or(false);
+            if err.starts_with("panic") {
+                why.push(err.clone());
+            }
+            if held > allowed_held {
+                why.push(format!("decoder held {held} bytes beyond the window, allowed are requested + one block = {allowed_held}"));
+            }
+            if peak > allowed_heap && err != "died" {
+                why.push(format!("heap peak {peak} exceeds 2 * (window + requested + 128 KiB) + slack = {allowed_heap}"));
+            }
+            if fr.valid && !err.is_empty() && err != "died" && err != "deadline" {
+                why.push(format!("valid frame refused ({err})"));
+            }
+            if !fr.valid && err.is_empty() && fin {
+                why.push("a frame with an oversized or invalid block was decoded to the end".into());
+            }
+            if !why.is_empty() && bad.len() < 20 {
+                bad.push(json!({"row": row.clone(), "errors": why}));
+            }
+            rows.push(row);
+        }
+    }
+    write_json(&args[1], &json!({"cases": n, "violations": bad.len(), "first": bad, "rows": rows}));
+}
+
+const STRATS: [&str; 8] = ["all", "blocks1", "bytes1", "bytes1m", "stream1", "stream64k", "slice", "decode_all"];
+fn requested_of(strat: &str) -> usize {
+    match strat {
+        "bytes1m" => 1 << 20,
+        "stream64k" => 1 << 16,
+        "decode_all" => 1 << 20,
+        "slice" => 1 << 16,
+        _ => 1,
+    }
+}
+
+/// c05case <frames.json> <frame index> <strategy>: one case, prints one JSON row
+pub fn c05case(args: &[String]) {
+    quiet_panics();
+    let frames = load_frames(&args[0]);
+    let fi: usize = args[1].parse().unwrap();
+    let fr = &frames[fi];
+    let strat = &args[2].as_str();
+    {
+        {
+            let base = crate::alloc_now();
+            crate::alloc_reset_peak();
+            let r = std::panic::catch_unwind(std::panic::AssertUnwindSafe(|| -> (String, usize, bool) {
+                let mut dec = FrameDecoder::new();
+                let mut max_held = 0usize; // bytes held beyond the window
+                let mut err = String::new();
+                let mut hold = |d: &FrameDecoder, max_held: &mut usize| {
+                    let c = d.can_collect();
+                    let beyond = if d.is_finished() { c.saturating_sub(fr.win) } else { c };
+                    *max_held = (*max_held).max(beyond);
+                };
+                match *strat {
+                    "all" | "blocks1" | "bytes1" | "bytes1m" => {
+                        let mut src = Src { data: fr.bytes.clone(), pos: 0, chunk: 0 };
+                        if let Err(e) = dec.reset(&mut src) {
+                            return (err_class(&e), 0, false);
+                        }
+                        let mut guard = 0;
+                        while !dec.is_finished() && guard < 100000 {
+                            guard += 1;
+                            let s = match *strat {
+                                "all" => BlockDecodingStrategy::All,
+                                "blocks1" => BlockDecodingStrategy::UptoBlocks(1),
+                                "bytes1" => BlockDecodingStrategy::UptoBytes(1),
+                                _ => BlockDecodingStrategy::UptoBytes(1 << 20),
+                            };
+                            if let Err(e) = dec.decode_blocks(&mut src, s) {
+                                err = err_class(&e);
+                                hold(&dec, &mut max_held);
+                                break;
+                            }
+                            if *strat != "all" {
+                                hold(&dec, &mut max_held);
+                            }
+                            let _ = dec.collect();
+                        }
+                    }
+                    "stream1" | "stream64k" => {
+                        let src = Src { data: fr.bytes.clone(), pos: 0, chunk: 0 };
+                        match StreamingDecoder::new_with_decoder(src, &mut dec) {
+                            Err(e) => return (err_class(&e), 0, false),
+                            Ok(mut sd) => {
+                                let mut buf = vec![0u8; if *strat == "stream1" { 1 } else { 1 << 16 }];
+                                let mut guard = 0u64;
+                                loop {
+                                    guard += 1;
+                                    match sd.read(&mut buf) {
+                                        Ok(0) => break,
+                                        Ok(_) => {}
+                                        Err(_) => {
+                                            err = "streaming".into();
+                                            break;
+                                        }
+                                    }
+                                    hold(&*sd.decoder, &mut max_held);
+                                    if guard > 3_000_000 {
+                                        break;
+                                    }
+                                }
+                            }
+                        }
+                    }
+                    "slice" => {
+                        let mut pos = 0;
+                        let mut tgt = vec![0u8; 1 << 16];
+                        let mut idle = 0;
+                        loop {
+                            match dec.decode_from_to(&fr.bytes[pos..], &mut tgt) {
+                                Err(e) => {
+                                    err = err_class(&e);
+                                    break;
+                                }
+                                Ok((rd, wr)) => {
+                                    pos += rd;
+                                    if rd == 0 && wr == 0 {
+                                        idle += 1;
+                                        if idle > 2 {
+                                            break;
+                                        }
+                                    }
+                                }
+                            }
+                        }
+                    }
+                    _ => {
+                        let mut out = vec![0u8; fr.content.len() + 64];
+                        if let Err(e) = dec.decode_all(&fr.bytes, &mut out) {
+                            err = err_class(&e);
+                        }
+                    }
+                }
+                (err, max_held, dec.is_finished())
+            }));
+            let peak = crate::alloc_peak().saturating_sub(base);
+            let (err, held, fin) = match r {
+                Ok(x) => x,
+                Err(p) => (format!("panic: {}", panic_msg(p)), 0, false),
+            };
+            println!("{}", json!({"frame": fi + 1, "strategy": strat, "err": err, "finished": fin, "held_beyond_window": held, "heap_peak": peak, "win": fr.win, "valid": fr.valid}));
+        }
+    }
 }
